@@ -119,6 +119,23 @@ def main(ck, tier, w):
                 ck.violation('%s, standard output on a %s: lines for payloads with control characters differ from the payloads (exit %d): got %r' %
                              (coin, mode, r.rc, chains.strip_log(r.out)[:300]), {'coin': coin, 'stdout': mode, 'payloads_hex': [p.hex() for p in ctl],
                                                                                'observed': r.brief(), 'tags': []})
+    # chain order inside a block, whatever the sizes: small lines before, between and after payloads of 300 000 and 1 100 000 bytes
+    for coin in ('bitcoin', 'namecoin'):
+        seq = [b'first', b'A' * 300000, b'third', b'B' * 1100000, b'fifth', b'C' * 262017, b'D' * 262016, b'last']
+        blocks = chains.std_chain(3, coin, txs_fn=lambda h, c: [btc.coinbase(h, None, outs=[{'val': 1, 'spk': b'\x6a' + btc.push(b'cb%d' % h)}]),
+                                                                {'ver': 1, 'ins': [{'txid': bytes([h]) * 32, 'idx': 0, 'sig': b'', 'seq': 0}],
+                                                                 'outs': [{'val': k, 'spk': b'\x6a' + btc.push(p)} for k, p in enumerate(seq if h == 1 else seq[:1])], 'lock': 0}])
+        d = datadir.simple_dir(w.sub('dd'), blocks, coin).write()
+        exp = b''.join(ref.opreturn_expected(list(enumerate(blocks)), coin))
+        r = run.run_parser(d, 'opreturn', coin=coin, timeout=120)
+        ck.evals()
+        ck.distinct(('order-huge', coin))
+        got = chains.strip_log(r.out)
+        if r.rc != 0 or got != exp:
+            gl, el = got.split(b'\n'), exp.split(b'\n')
+            k = next((n for n in range(min(len(gl), len(el))) if gl[n] != el[n]), min(len(gl), len(el)))
+            ck.violation('%s: lines of a block holding small and very large payloads are not in chain order (exit %d): line %d is %r..., expected %r...' % (
+                coin, r.rc, k, gl[k][-40:] if k < len(gl) else None, el[k][-40:] if k < len(el) else None), {'coin': coin, 'observed': {'rc': r.rc, 'stderr': r.stderr[-300:]}, 'tags': []})
     # lines of the blocks processed before a failure are printed too (every processed output prints its line)
     for coin in ('bitcoin', 'litecoin'):
         blocks = chains.std_chain(6, coin)
